@@ -129,7 +129,7 @@ def decrease_max(
     dom_offsets_arr: NDArray,
     var_idx: int,
     value: int,
-) -> None:
+) -> bool:
     """
     Decreases the max of a variable
     :param shr_domains_stack: the stack of shared domains
@@ -138,8 +138,11 @@ def decrease_max(
     :param dom_offsets_arr: the domain offsets
     :param var_idx: the index of the variable
     :param value: the current max
+    :return: false iff the domain of the variable becomes empty
     """
-    shr_domains_stack[stacks_top[0], dom_indices_arr[var_idx], MAX] = value - 1 - dom_offsets_arr[var_idx]
+    shr_domain = shr_domains_stack[stacks_top[0], dom_indices_arr[var_idx]]
+    shr_domain[MAX] = value - 1 - dom_offsets_arr[var_idx]
+    return shr_domain[MIN] <= shr_domain[MAX]
 
 
 @njit(cache=True)
@@ -150,7 +153,7 @@ def increase_min(
     dom_offsets_arr: NDArray,
     var_idx: int,
     value: int,
-) -> None:
+) -> bool:
     """
     Increases the min of a variable
     :param shr_domains_stack: the stack of shared domains
@@ -159,5 +162,8 @@ def increase_min(
     :param dom_offsets_arr: the domain offsets
     :param var_idx: the index of the variable
     :param value: the current max
+    :return: false iff the domain of the variable becomes empty
     """
-    shr_domains_stack[stacks_top[0], dom_indices_arr[var_idx], MIN] = value + 1 - dom_offsets_arr[var_idx]
+    shr_domain = shr_domains_stack[stacks_top[0], dom_indices_arr[var_idx]]
+    shr_domain[MIN] = value + 1 - dom_offsets_arr[var_idx]
+    return shr_domain[MIN] <= shr_domain[MAX]
